@@ -1,5 +1,5 @@
 @unit cw20
-@shim core.rs cw_utils.rs
+@shim core.rs cw_utils.rs cw2.rs
 @properties C01 C02 C13 C19
 
 // ===================================================================== extracted data types
@@ -13,12 +13,26 @@
 @enum contracts/cw20-base/src/error.rs ContractError
 @struct contracts/cw20-base/src/state.rs TokenInfo
 @struct contracts/cw20-base/src/state.rs MinterData
+@enum packages/cw20/src/logo.rs Logo
+@enum packages/cw20/src/logo.rs EmbeddedLogo
+@enum packages/cw20/src/logo.rs LogoInfo
+@struct packages/cw20/src/query.rs MarketingInfoResponse [default: MarketingInfoResponse { project: None, description: None, logo: None, marketing: None }]
+@struct contracts/cw20-base/src/msg.rs InstantiateMarketingInfo
+@struct contracts/cw20-base/src/msg.rs InstantiateMsg
+@enum packages/cw20/src/msg.rs Cw20ExecuteMsg
+pub type ExecuteMsg = Cw20ExecuteMsg;
+impl SerT for MarketingInfoResponse { uninterp spec fn ser(self) -> Seq<u8>; uninterp spec fn de(b: Seq<u8>) -> Option<Self>; }
+impl SerT for Logo { uninterp spec fn ser(self) -> Seq<u8>; uninterp spec fn de(b: Seq<u8>) -> Option<Self>; }
 
 impl SerT for TokenInfo { uninterp spec fn ser(self) -> Seq<u8>; uninterp spec fn de(b: Seq<u8>) -> Option<Self>; }
 impl SerT for AllowanceResponse { uninterp spec fn ser(self) -> Seq<u8>; uninterp spec fn de(b: Seq<u8>) -> Option<Self>; }
 impl JsonT for ReceiverExecuteMsg { uninterp spec fn json(self) -> Seq<u8>; uninterp spec fn unjson(b: Seq<u8>) -> Option<Self>; }
 
+@const contracts/cw20-base/src/contract.rs CONTRACT_NAME
+@const contracts/cw20-base/src/contract.rs CONTRACT_VERSION
 @const contracts/cw20-base/src/state.rs TOKEN_INFO
+@const contracts/cw20-base/src/state.rs MARKETING_INFO
+@const contracts/cw20-base/src/state.rs LOGO
 @const contracts/cw20-base/src/state.rs BALANCES
 @const contracts/cw20-base/src/state.rs ALLOWANCES
 @const contracts/cw20-base/src/state.rs ALLOWANCES_SPENDER
@@ -58,7 +72,7 @@ pub open spec fn set_supply(s: Raw, v: nat) -> Raw {
 
 /// whole-state step relations, written from the property statements (C01, C02, C13)
 pub open spec fn step_transfer(s: Raw, t: Raw, from: Seq<char>, to: Seq<char>, amt: nat) -> bool {
-    bal(s, from) >= amt && t == credit(debit(s, from, amt), to, amt)
+    bal(s, from) >= amt && bal(debit(s, from, amt), to) + amt <= u128::MAX && t == credit(debit(s, from, amt), to, amt)
 }
 pub open spec fn step_burn(s: Raw, t: Raw, from: Seq<char>, amt: nat) -> bool {
     bal(s, from) >= amt && tinfo(s) is Some && supply(s) >= amt
@@ -67,6 +81,7 @@ pub open spec fn step_burn(s: Raw, t: Raw, from: Seq<char>, amt: nat) -> bool {
 pub open spec fn step_mint(s: Raw, t: Raw, sender: Seq<char>, to: Seq<char>, amt: nat) -> bool {
     tinfo(s) is Some && tinfo(s)->Some_0.mint is Some && tinfo(s)->Some_0.mint->Some_0.minter@ == sender
     && (cap_of(tinfo(s)->Some_0) is Some ==> supply(s) + amt <= cap_of(tinfo(s)->Some_0)->Some_0@)
+    && supply(s) + amt <= u128::MAX && bal(s, to) + amt <= u128::MAX
     && t == credit(set_supply(s, supply(s) + amt), to, amt)
 }
 
@@ -628,7 +643,8 @@ pub proof fn lemma_no_balances_zero(s: Raw)
 @ensures C01.create_frame C13 C19
     same_outside_balances(old(deps).storage.view(), final(deps).storage.view())
 @ensures C01.create_deps_frame
-    final(deps).api == old(deps).api, final(deps).querier == old(deps).querier
+    final(deps).api == old(deps).api, final(deps).querier == old(deps).querier,
+    final(final(deps).storage).view() == final(old(deps).storage).view()
 @loop 1 C01.create_loop
     invariant
         it.index@ <= accounts@.len(),
@@ -667,3 +683,534 @@ pub proof fn lemma_no_balances_zero(s: Raw)
         }
     }
 @end
+
+@method contracts/cw20-base/src/msg.rs InstantiateMsg get_cap
+@ensures C13.msg_get_cap
+    r == (match self.mint { Some(m) => m.cap, None => None })
+@closure 1 C13.msg_get_cap_closure
+    (res: Option<Uint128>)
+    ensures res == v.cap
+@end
+
+// ASSUMED LEAF: name/symbol/decimals format check (byte loops over String::as_bytes); no property depends on its result
+@method contracts/cw20-base/src/msg.rs InstantiateMsg validate [assume]
+@end
+
+// ASSUMED LEAF: logo format check; storage-free by signature, no property depends on its result
+@fn contracts/cw20-base/src/contract.rs verify_logo [assume]
+@end
+
+pub open spec fn same_balances_and_allowances(s: Raw, t: Raw) -> bool {
+    forall|k: Seq<u8>| unpath(k).0 == "balance"@ || unpath(k).0 == "allowance"@ || unpath(k).0 == "allowance_spender"@ ==> raw_opt(s, k) == raw_opt(t, k)
+}
+
+pub open spec fn no_allowances(s: Raw) -> bool {
+    forall|k: Seq<u8>| s.contains_key(k) ==> unpath(k).0 != "allowance"@ && unpath(k).0 != "allowance_spender"@
+}
+pub proof fn lemma_no_allowances_mirror(s: Raw)
+    requires no_allowances(s)
+    ensures inv_mirror(s)
+{
+    broadcast use cw20_axioms;
+    assert forall|o: Seq<char>, sp: Seq<char>| allow(s, o, sp) == allow_s(s, sp, o) by {
+        assert(unpath(akey(o, sp)).0 == "allowance"@ && unpath(skey(sp, o)).0 == "allowance_spender"@);
+    }
+}
+/// one write outside the balance / allowance namespaces keeps balances, their sum, the mirror invariant and other items
+pub proof fn lemma_side_write(s: Raw, k: Seq<u8>, v: Seq<u8>)
+    requires unpath(k).0 != "balance"@, unpath(k).0 != "allowance"@, unpath(k).0 != "allowance_spender"@
+    ensures total_bal(s.insert(k, v)) == total_bal(s),
+        forall|x: Seq<char>| bal(s.insert(k, v), x) == bal(s, x),
+        inv_mirror(s) ==> inv_mirror(s.insert(k, v)),
+        k != ti_key() ==> tinfo(s.insert(k, v)) == tinfo(s),
+{
+    lemma_other_ns(s, k, v);
+    if inv_mirror(s) { lemma_mirror_frame(s, k, v); }
+}
+
+@fn contracts/cw20-base/src/contract.rs instantiate
+@requires
+    old(deps.storage).view() == SMap::<Seq<u8>, Seq<u8>>::empty()
+@ensures C01.instantiate_inv C13 C19
+    r is Ok ==> inv(final(deps.storage).view())
+@ensures C01.instantiate_balances
+    r is Ok ==> forall|j: int| 0 <= j < msg.initial_balances@.len() ==> bal(final(deps.storage).view(), (#[trigger] msg.initial_balances@[j]).address@) == msg.initial_balances@[j].amount@
+@ensures C13.instantiate_minter
+    r is Ok ==> match msg.mint {
+        Some(m) => tinfo(final(deps.storage).view())->Some_0.mint is Some
+            && tinfo(final(deps.storage).view())->Some_0.mint->Some_0.minter@ == m.minter@
+            && tinfo(final(deps.storage).view())->Some_0.mint->Some_0.cap == m.cap,
+        None => tinfo(final(deps.storage).view())->Some_0.mint is None,
+    }
+@closure 1 C01.instantiate_marketing_addr
+    (res: StdResult<Addr>)
+    ensures res is Ok ==> res->Ok_0@ == addr@
+@prefix
+    broadcast use cw20_axioms;
+    proof { lemma_ns(); }
+@insert_before "let total_supply = create_accounts(" 1
+    let ghost s0 = deps.storage.view();
+    proof {
+        assert forall|k: Seq<u8>| s0.contains_key(k) implies unpath(k).0 == "contract_info"@ by { assert(k == cw2_key()); }
+    }
+@insert_before "if let Some(limit) = msg.get_cap()" 1
+    let ghost s1 = deps.storage.view();
+    proof {
+        assert(no_allowances(s1)) by {
+            assert forall|k: Seq<u8>| s1.contains_key(k) implies unpath(k).0 != "allowance"@ && unpath(k).0 != "allowance_spender"@ by {
+                if unpath(k).0 != "balance"@ { assert(raw_opt(s0, k) == raw_opt(s1, k)); }
+            }
+        }
+        lemma_no_allowances_mirror(s1);
+        assert(!s1.contains_key(ti_key())) by { assert(raw_opt(s0, ti_key()) == raw_opt(s1, ti_key())); }
+    }
+@insert_before "TOKEN_INFO.save(" 1
+    proof { lemma_side_write(deps.storage.view(), ti_key(), data.ser()); }
+@insert_before "LOGO.save(" 1
+    proof { lemma_side_write(deps.storage.view(), item_key("logo"@), logo.ser()); }
+@insert_before "MARKETING_INFO.save(" 1
+    proof { lemma_side_write(deps.storage.view(), item_key("marketing_info"@), data.ser()); }
+@end
+
+/// marketing / logo updates: every key outside those two items is untouched
+pub open spec fn step_side(s: Raw, t: Raw) -> bool {
+    forall|k: Seq<u8>| k != item_key("marketing_info"@) && k != item_key("logo"@) ==> raw_opt(s, k) == raw_opt(t, k)
+}
+
+@fn contracts/cw20-base/src/contract.rs execute_update_marketing
+@requires
+    inv(old(deps.storage).view())
+@ensures C01.update_marketing_frame C02 C13 C19
+    r is Ok ==> step_side(old(deps.storage).view(), final(deps.storage).view())
+@ensures C01.update_marketing_inv C13 C19
+    r is Ok ==> inv(final(deps.storage).view())
+@ensures C02.update_marketing_nomsg
+    r is Ok ==> r->Ok_0.messages@.len() == 0
+@prefix
+    broadcast use cw20_axioms;
+    proof {
+        lemma_ns();
+        lemma_other_ns(old(deps.storage).view(), item_key("marketing_info"@), Seq::<u8>::empty());
+        lemma_mirror_frame(old(deps.storage).view(), item_key("marketing_info"@), Seq::<u8>::empty());
+    }
+@insert_before "MARKETING_INFO.save(" 1
+    proof { lemma_side_write(deps.storage.view(), item_key("marketing_info"@), marketing_info.ser()); }
+@end
+
+@fn contracts/cw20-base/src/contract.rs execute_upload_logo
+@requires
+    inv(old(deps.storage).view())
+@ensures C01.upload_logo_frame C02 C13 C19
+    r is Ok ==> step_side(old(deps.storage).view(), final(deps.storage).view())
+@ensures C01.upload_logo_inv C13 C19
+    r is Ok ==> inv(final(deps.storage).view())
+@ensures C02.upload_logo_nomsg
+    r is Ok ==> r->Ok_0.messages@.len() == 0
+@prefix
+    broadcast use cw20_axioms;
+    proof { lemma_ns(); }
+@insert_before "LOGO.save(" 1
+    proof { lemma_side_write(deps.storage.view(), item_key("logo"@), logo.ser()); }
+@insert_before "MARKETING_INFO.save(" 1
+    proof { lemma_side_write(deps.storage.view(), item_key("marketing_info"@), marketing_info.ser()); }
+@end
+
+// ===================================================================== the dispatcher and the one-step relation
+pub open spec fn step_from(s: Raw, owner: Seq<char>, sp: Seq<char>, amt: nat, b: &BlockInfo) -> bool {
+    step_deduct(s, after_deduct(s, owner, sp, amt), owner, sp, amt, b)
+}
+/// what one successful `execute` call may do to the state (disjunction over the message kind)
+pub open spec fn step_execute(s: Raw, t: Raw, sender: Seq<char>, b: &BlockInfo, msg: Cw20ExecuteMsg) -> bool {
+    match msg {
+        Cw20ExecuteMsg::Transfer { recipient, amount } => step_transfer(s, t, sender, recipient@, amount@),
+        Cw20ExecuteMsg::Burn { amount } => step_burn(s, t, sender, amount@),
+        Cw20ExecuteMsg::Send { contract, amount, msg } => step_transfer(s, t, sender, contract@, amount@),
+        Cw20ExecuteMsg::Mint { recipient, amount } => step_mint(s, t, sender, recipient@, amount@),
+        Cw20ExecuteMsg::IncreaseAllowance { spender, amount, expires } => step_increase(s, t, sender, spender@, amount@, expires, b),
+        Cw20ExecuteMsg::DecreaseAllowance { spender, amount, expires } => step_decrease(s, t, sender, spender@, amount@, expires, b),
+        Cw20ExecuteMsg::TransferFrom { owner, recipient, amount } =>
+            step_from(s, owner@, sender, amount@, b) && step_transfer(after_deduct(s, owner@, sender, amount@), t, owner@, recipient@, amount@),
+        Cw20ExecuteMsg::BurnFrom { owner, amount } =>
+            step_from(s, owner@, sender, amount@, b) && step_burn(after_deduct(s, owner@, sender, amount@), t, owner@, amount@),
+        Cw20ExecuteMsg::SendFrom { owner, contract, amount, msg } =>
+            step_from(s, owner@, sender, amount@, b) && step_transfer(after_deduct(s, owner@, sender, amount@), t, owner@, contract@, amount@),
+        Cw20ExecuteMsg::UpdateMarketing { project, description, marketing } => step_side(s, t),
+        Cw20ExecuteMsg::UploadLogo(l) => step_side(s, t),
+        Cw20ExecuteMsg::UpdateMinter { new_minter } => step_update_minter(s, t, sender, new_minter),
+    }
+}
+/// notifications emitted by one successful call: exactly one Receive for Send / SendFrom, nothing otherwise
+pub open spec fn notify_ok(msgs: Seq<SubMsg<Empty>>, sender: Seq<char>, msg: Cw20ExecuteMsg) -> bool {
+    match msg {
+        Cw20ExecuteMsg::Send { contract, amount, msg } => msgs.len() == 1 && is_receive_msg(msgs[0], contract@, sender, amount, msg),
+        Cw20ExecuteMsg::SendFrom { owner, contract, amount, msg } => msgs.len() == 1 && is_receive_msg(msgs[0], contract@, sender, amount, msg),
+        Cw20ExecuteMsg::Mint { .. } => msgs.len() == 0,
+        Cw20ExecuteMsg::Transfer { .. } => msgs.len() == 0,
+        Cw20ExecuteMsg::Burn { .. } => msgs.len() == 0,
+        Cw20ExecuteMsg::TransferFrom { .. } => msgs.len() == 0,
+        Cw20ExecuteMsg::BurnFrom { .. } => msgs.len() == 0,
+        Cw20ExecuteMsg::IncreaseAllowance { .. } => msgs.len() == 0,
+        Cw20ExecuteMsg::DecreaseAllowance { .. } => msgs.len() == 0,
+        _ => true,
+    }
+}
+
+@fn contracts/cw20-base/src/contract.rs execute
+@requires
+    inv(old(deps.storage).view())
+@ensures C01.execute_step C02 C13 C19
+    r is Ok ==> step_execute(old(deps.storage).view(), final(deps.storage).view(), info.sender@, &env.block, msg)
+@ensures C01.execute_inv C13 C19
+    r is Ok ==> inv(final(deps.storage).view())
+@ensures C02.execute_notify
+    r is Ok ==> notify_ok(r->Ok_0.messages@, info.sender@, msg)
+@end
+
+// ===================================================================== history lemmas (derive the property sentences from the contracts)
+/// the full postcondition of one successful `execute` call, as proved for the dispatcher above
+pub open spec fn exec_post(s: Raw, t: Raw, sender: Seq<char>, b: &BlockInfo, msg: Cw20ExecuteMsg) -> bool {
+    step_execute(s, t, sender, b, msg) && inv(t)
+}
+pub open spec fn others_same(s: Raw, t: Raw, a: Seq<char>) -> bool { forall|x: Seq<char>| x != a ==> bal(t, x) == bal(s, x) }
+pub open spec fn allowance_amt(s: Raw, o: Seq<char>, sp: Seq<char>) -> nat { allow_or_default(s, o, sp).allowance@ }
+
+pub proof fn lemma_after_deduct(s: Raw, o: Seq<char>, sp: Seq<char>, amt: nat)
+    requires inv_mirror(s), allow(s, o, sp) is Some, allow(s, o, sp)->Some_0.allowance@ >= amt
+    ensures total_bal(after_deduct(s, o, sp, amt)) == total_bal(s), tinfo(after_deduct(s, o, sp, amt)) == tinfo(s),
+        forall|x: Seq<char>| bal(after_deduct(s, o, sp, amt), x) == bal(s, x),
+        allowance_amt(after_deduct(s, o, sp, amt), o, sp) == allowance_amt(s, o, sp) - amt,
+        forall|o2: Seq<char>, sp2: Seq<char>| (o2 != o || sp2 != sp) ==> allow(after_deduct(s, o, sp, amt), o2, sp2) == allow(s, o2, sp2),
+{
+    broadcast use cw20_axioms;
+    let a = AllowanceResponse { allowance: Uint128((allow(s, o, sp)->Some_0.allowance@ - amt) as u128), expires: allow(s, o, sp)->Some_0.expires };
+    lemma_set_allow(s, o, sp, a);
+    lemma_allow_frame(s, o, sp, a);
+}
+/// writing the (o, sp) allowance entry leaves every other pair's entry alone
+pub proof fn lemma_allow_frame(s: Raw, o: Seq<char>, sp: Seq<char>, a: AllowanceResponse)
+    ensures forall|o2: Seq<char>, sp2: Seq<char>| (o2 != o || sp2 != sp) ==>
+        allow(set_allow(s, o, sp, a), o2, sp2) == allow(s, o2, sp2) && allow(del_allow(s, o, sp), o2, sp2) == allow(s, o2, sp2),
+{
+    broadcast use cw20_axioms;
+    lemma_ns();
+    assert forall|o2: Seq<char>, sp2: Seq<char>| (o2 != o || sp2 != sp) implies
+        allow(set_allow(s, o, sp, a), o2, sp2) == allow(s, o2, sp2) && allow(del_allow(s, o, sp), o2, sp2) == allow(s, o2, sp2) by {
+        assert(unpair_kb(pair_kb(utf8(o2), utf8(sp2))) != unpair_kb(pair_kb(utf8(o), utf8(sp)))) by {
+            assert(unutf8(utf8(o2)) == o2 && unutf8(utf8(o)) == o && unutf8(utf8(sp2)) == sp2 && unutf8(utf8(sp)) == sp);
+        }
+        assert(unpath(akey(o2, sp2)) != unpath(akey(o, sp)));
+        assert(unpath(akey(o2, sp2)) != unpath(skey(sp, o)));
+    }
+}
+/// balance writes leave every allowance entry alone
+pub proof fn lemma_bal_write_allow(s: Raw, a: Seq<char>, v: Seq<u8>)
+    ensures forall|o: Seq<char>, sp: Seq<char>| allow(s.insert(bkey(a), v), o, sp) == allow(s, o, sp),
+        forall|o: Seq<char>, sp: Seq<char>| allow(s.insert(ti_key(), v), o, sp) == allow(s, o, sp),
+{
+    broadcast use cw20_axioms;
+    lemma_ns();
+    assert forall|o: Seq<char>, sp: Seq<char>| allow(s.insert(bkey(a), v), o, sp) == allow(s, o, sp) && allow(s.insert(ti_key(), v), o, sp) == allow(s, o, sp) by {
+        assert(unpath(akey(o, sp)) != unpath(bkey(a)) && unpath(akey(o, sp)) != unpath(ti_key()));
+    }
+}
+
+// serves: C01
+/// C01, per step: the supply moves only at mint / burn, by exactly the amount, together with exactly one balance
+pub proof fn lemma_c01_step(s: Raw, t: Raw, sender: Seq<char>, b: &BlockInfo, msg: Cw20ExecuteMsg)
+    requires inv(s), exec_post(s, t, sender, b, msg)
+    ensures
+        total_bal(t) == supply(t),
+        match msg {
+            Cw20ExecuteMsg::Mint { recipient, amount } => supply(t) == supply(s) + amount@
+                && bal(t, recipient@) == bal(s, recipient@) + amount@ && others_same(s, t, recipient@),
+            Cw20ExecuteMsg::Burn { amount } => supply(t) == supply(s) - amount@
+                && bal(t, sender) == bal(s, sender) - amount@ && others_same(s, t, sender),
+            Cw20ExecuteMsg::BurnFrom { owner, amount } => supply(t) == supply(s) - amount@
+                && bal(t, owner@) == bal(s, owner@) - amount@ && others_same(s, t, owner@),
+            _ => supply(t) == supply(s) && total_bal(t) == total_bal(s),
+        },
+{
+    broadcast use cw20_axioms;
+    lemma_ns();
+    match msg {
+        Cw20ExecuteMsg::Mint { recipient, amount } => {
+            lemma_set_supply(s, supply(s) + amount@);
+            lemma_credit(set_supply(s, supply(s) + amount@), recipient@, amount@);
+        }
+        Cw20ExecuteMsg::Burn { amount } => {
+            lemma_debit(s, sender, amount@);
+            lemma_set_supply(debit(s, sender, amount@), (supply(s) - amount@) as nat);
+        }
+        Cw20ExecuteMsg::BurnFrom { owner, amount } => {
+            let m = after_deduct(s, owner@, sender, amount@);
+            lemma_after_deduct(s, owner@, sender, amount@);
+            lemma_debit(m, owner@, amount@);
+            lemma_set_supply(debit(m, owner@, amount@), (supply(m) - amount@) as nat);
+        }
+        Cw20ExecuteMsg::TransferFrom { owner, recipient, amount } => { lemma_after_deduct(s, owner@, sender, amount@); }
+        Cw20ExecuteMsg::SendFrom { owner, contract, amount, msg } => { lemma_after_deduct(s, owner@, sender, amount@); }
+        Cw20ExecuteMsg::UpdateMarketing { .. } => { assert(raw_opt(s, ti_key()) == raw_opt(t, ti_key())); }
+        Cw20ExecuteMsg::UploadLogo(_) => { assert(raw_opt(s, ti_key()) == raw_opt(t, ti_key())); }
+        _ => {}
+    }
+}
+
+// serves: C02
+/// C02, per step: whose balance may go down, and under which allowance
+pub proof fn lemma_c02_step(s: Raw, t: Raw, sender: Seq<char>, b: &BlockInfo, msg: Cw20ExecuteMsg, x: Seq<char>)
+    requires inv(s), exec_post(s, t, sender, b, msg), bal(t, x) < bal(s, x)
+    ensures
+        match msg {
+            Cw20ExecuteMsg::Transfer { recipient, amount } => x == sender && bal(s, x) - bal(t, x) == amount@,
+            Cw20ExecuteMsg::Send { contract, amount, msg } => x == sender && bal(s, x) - bal(t, x) == amount@,
+            Cw20ExecuteMsg::Burn { amount } => x == sender && bal(s, x) - bal(t, x) == amount@,
+            Cw20ExecuteMsg::TransferFrom { owner, recipient, amount } => x == owner@ && bal(s, x) - bal(t, x) == amount@ && drew(s, t, x, sender, amount@, b),
+            Cw20ExecuteMsg::SendFrom { owner, contract, amount, msg } => x == owner@ && bal(s, x) - bal(t, x) == amount@ && drew(s, t, x, sender, amount@, b),
+            Cw20ExecuteMsg::BurnFrom { owner, amount } => x == owner@ && bal(s, x) - bal(t, x) == amount@ && drew(s, t, x, sender, amount@, b),
+            _ => false,
+        },
+{
+    broadcast use cw20_axioms;
+    lemma_ns();
+    match msg {
+        Cw20ExecuteMsg::Transfer { recipient, amount } => { lemma_debit(s, sender, amount@); lemma_credit(debit(s, sender, amount@), recipient@, amount@); }
+        Cw20ExecuteMsg::Send { contract, amount, msg } => { lemma_debit(s, sender, amount@); lemma_credit(debit(s, sender, amount@), contract@, amount@); }
+        Cw20ExecuteMsg::Burn { amount } => { lemma_debit(s, sender, amount@); lemma_set_supply(debit(s, sender, amount@), (supply(s) - amount@) as nat); }
+        Cw20ExecuteMsg::Mint { recipient, amount } => { lemma_set_supply(s, supply(s) + amount@); lemma_credit(set_supply(s, supply(s) + amount@), recipient@, amount@); }
+        Cw20ExecuteMsg::TransferFrom { owner, recipient, amount } => {
+            let m = after_deduct(s, owner@, sender, amount@);
+            lemma_after_deduct(s, owner@, sender, amount@);
+            lemma_debit(m, owner@, amount@); lemma_credit(debit(m, owner@, amount@), recipient@, amount@);
+            lemma_bal_write_allow(m, owner@, u128_ser((bal(m, owner@) - amount@) as u128));
+            lemma_bal_write_allow(debit(m, owner@, amount@), recipient@, u128_ser((bal(debit(m, owner@, amount@), recipient@) + amount@) as u128));
+        }
+        Cw20ExecuteMsg::SendFrom { owner, contract, amount, msg } => {
+            let m = after_deduct(s, owner@, sender, amount@);
+            lemma_after_deduct(s, owner@, sender, amount@);
+            lemma_debit(m, owner@, amount@); lemma_credit(debit(m, owner@, amount@), contract@, amount@);
+            lemma_bal_write_allow(m, owner@, u128_ser((bal(m, owner@) - amount@) as u128));
+            lemma_bal_write_allow(debit(m, owner@, amount@), contract@, u128_ser((bal(debit(m, owner@, amount@), contract@) + amount@) as u128));
+        }
+        Cw20ExecuteMsg::BurnFrom { owner, amount } => {
+            let m = after_deduct(s, owner@, sender, amount@);
+            lemma_after_deduct(s, owner@, sender, amount@);
+            lemma_debit(m, owner@, amount@);
+            lemma_set_supply(debit(m, owner@, amount@), (supply(m) - amount@) as nat);
+            lemma_bal_write_allow(m, owner@, u128_ser((bal(m, owner@) - amount@) as u128));
+            lemma_bal_write_allow(debit(m, owner@, amount@), owner@, (TokenInfo { total_supply: Uint128((supply(m) - amount@) as u128), ..tinfo(debit(m, owner@, amount@))->Some_0 }).ser());
+        }
+        Cw20ExecuteMsg::IncreaseAllowance { spender, amount, expires } => {
+            lemma_set_allow(s, sender, spender@, allow_or_default(t, sender, spender@));
+        }
+        Cw20ExecuteMsg::DecreaseAllowance { spender, amount, expires } => {
+            lemma_set_allow(s, sender, spender@, allow_or_default(t, sender, spender@));
+        }
+        Cw20ExecuteMsg::UpdateMarketing { .. } => { assert(raw_opt(s, bkey(x)) == raw_opt(t, bkey(x))); }
+        Cw20ExecuteMsg::UploadLogo(_) => { assert(raw_opt(s, bkey(x)) == raw_opt(t, bkey(x))); }
+        Cw20ExecuteMsg::UpdateMinter { new_minter } => { lemma_other_ns(s, ti_key(), tinfo(t)->Some_0.ser()); }
+    }
+}
+/// "spender `sp` drew `amt` on owner `o`'s allowance": it existed, was unexpired and sufficient, and went down by exactly `amt`
+pub open spec fn drew(s: Raw, t: Raw, o: Seq<char>, sp: Seq<char>, amt: nat, b: &BlockInfo) -> bool {
+    allow(s, o, sp) is Some && !allow(s, o, sp)->Some_0.expires.expired(b) && allow(s, o, sp)->Some_0.allowance@ >= amt
+    && allow(t, o, sp) is Some && allow(t, o, sp)->Some_0.allowance@ == allow(s, o, sp)->Some_0.allowance@ - amt
+    && allow(t, o, sp)->Some_0.expires == allow(s, o, sp)->Some_0.expires
+}
+
+pub open spec fn grant_of(sender: Seq<char>, msg: Cw20ExecuteMsg, o: Seq<char>, sp: Seq<char>) -> nat {
+    match msg {
+        Cw20ExecuteMsg::IncreaseAllowance { spender, amount, expires } => if sender == o && spender@ == sp { amount@ } else { 0 },
+        _ => 0,
+    }
+}
+pub open spec fn draw_of(sender: Seq<char>, msg: Cw20ExecuteMsg, o: Seq<char>, sp: Seq<char>) -> nat {
+    match msg {
+        Cw20ExecuteMsg::TransferFrom { owner, recipient, amount } => if sender == sp && owner@ == o { amount@ } else { 0 },
+        Cw20ExecuteMsg::SendFrom { owner, contract, amount, msg } => if sender == sp && owner@ == o { amount@ } else { 0 },
+        Cw20ExecuteMsg::BurnFrom { owner, amount } => if sender == sp && owner@ == o { amount@ } else { 0 },
+        _ => 0,
+    }
+}
+
+// serves: C02
+/// C02, per step and per (owner, spender): what was drawn plus what is left never exceeds what was there plus what was granted;
+/// and the allowance changes only by the owner's increase/decrease or the spender's own draw
+pub proof fn lemma_c02_allowance_step(s: Raw, t: Raw, sender: Seq<char>, b: &BlockInfo, msg: Cw20ExecuteMsg, o: Seq<char>, sp: Seq<char>)
+    requires inv(s), exec_post(s, t, sender, b, msg)
+    ensures
+        allowance_amt(t, o, sp) + draw_of(sender, msg, o, sp) <= allowance_amt(s, o, sp) + grant_of(sender, msg, o, sp),
+        allow(t, o, sp) != allow(s, o, sp) ==> match msg {
+            Cw20ExecuteMsg::IncreaseAllowance { spender, amount, expires } => sender == o && spender@ == sp && allowance_amt(t, o, sp) == allowance_amt(s, o, sp) + amount@,
+            Cw20ExecuteMsg::DecreaseAllowance { spender, amount, expires } => sender == o && spender@ == sp
+                && allowance_amt(t, o, sp) == (if amount@ < allowance_amt(s, o, sp) { allowance_amt(s, o, sp) - amount@ } else { 0 }),
+            Cw20ExecuteMsg::TransferFrom { owner, recipient, amount } => sender == sp && owner@ == o && drew(s, t, o, sp, amount@, b),
+            Cw20ExecuteMsg::SendFrom { owner, contract, amount, msg } => sender == sp && owner@ == o && drew(s, t, o, sp, amount@, b),
+            Cw20ExecuteMsg::BurnFrom { owner, amount } => sender == sp && owner@ == o && drew(s, t, o, sp, amount@, b),
+            _ => false,
+        },
+{
+    broadcast use cw20_axioms;
+    lemma_ns();
+    match msg {
+        Cw20ExecuteMsg::Transfer { recipient, amount } => {
+            lemma_bal_write_allow(s, sender, u128_ser((bal(s, sender) - amount@) as u128));
+            lemma_bal_write_allow(debit(s, sender, amount@), recipient@, u128_ser((bal(debit(s, sender, amount@), recipient@) + amount@) as u128));
+        }
+        Cw20ExecuteMsg::Send { contract, amount, msg } => {
+            lemma_bal_write_allow(s, sender, u128_ser((bal(s, sender) - amount@) as u128));
+            lemma_bal_write_allow(debit(s, sender, amount@), contract@, u128_ser((bal(debit(s, sender, amount@), contract@) + amount@) as u128));
+        }
+        Cw20ExecuteMsg::Burn { amount } => {
+            lemma_bal_write_allow(s, sender, u128_ser((bal(s, sender) - amount@) as u128));
+            lemma_bal_write_allow(debit(s, sender, amount@), sender, (TokenInfo { total_supply: Uint128((supply(s) - amount@) as u128), ..tinfo(debit(s, sender, amount@))->Some_0 }).ser());
+        }
+        Cw20ExecuteMsg::Mint { recipient, amount } => {
+            lemma_bal_write_allow(s, sender, (TokenInfo { total_supply: Uint128((supply(s) + amount@) as u128), ..tinfo(s)->Some_0 }).ser());
+            lemma_bal_write_allow(set_supply(s, supply(s) + amount@), recipient@, u128_ser((bal(set_supply(s, supply(s) + amount@), recipient@) + amount@) as u128));
+        }
+        Cw20ExecuteMsg::TransferFrom { owner, recipient, amount } => {
+            let m = after_deduct(s, owner@, sender, amount@);
+            lemma_after_deduct(s, owner@, sender, amount@);
+            lemma_bal_write_allow(m, owner@, u128_ser((bal(m, owner@) - amount@) as u128));
+            lemma_bal_write_allow(debit(m, owner@, amount@), recipient@, u128_ser((bal(debit(m, owner@, amount@), recipient@) + amount@) as u128));
+        }
+        Cw20ExecuteMsg::SendFrom { owner, contract, amount, msg } => {
+            let m = after_deduct(s, owner@, sender, amount@);
+            lemma_after_deduct(s, owner@, sender, amount@);
+            lemma_bal_write_allow(m, owner@, u128_ser((bal(m, owner@) - amount@) as u128));
+            lemma_bal_write_allow(debit(m, owner@, amount@), contract@, u128_ser((bal(debit(m, owner@, amount@), contract@) + amount@) as u128));
+        }
+        Cw20ExecuteMsg::BurnFrom { owner, amount } => {
+            let m = after_deduct(s, owner@, sender, amount@);
+            lemma_after_deduct(s, owner@, sender, amount@);
+            lemma_bal_write_allow(m, owner@, u128_ser((bal(m, owner@) - amount@) as u128));
+            lemma_bal_write_allow(debit(m, owner@, amount@), owner@, (TokenInfo { total_supply: Uint128((supply(m) - amount@) as u128), ..tinfo(debit(m, owner@, amount@))->Some_0 }).ser());
+        }
+        Cw20ExecuteMsg::IncreaseAllowance { spender, amount, expires } => {
+            let a = AllowanceResponse {
+                allowance: Uint128((allow_or_default(s, sender, spender@).allowance@ + amount@) as u128),
+                expires: match expires { Some(e) => e, None => allow_or_default(s, sender, spender@).expires } };
+            lemma_set_allow(s, sender, spender@, a);
+            lemma_allow_frame(s, sender, spender@, a);
+        }
+        Cw20ExecuteMsg::DecreaseAllowance { spender, amount, expires } => {
+            let a = AllowanceResponse {
+                allowance: Uint128((allow(s, sender, spender@)->Some_0.allowance@ - amount@) as u128),
+                expires: match expires { Some(e) => e, None => allow(s, sender, spender@)->Some_0.expires } };
+            lemma_set_allow(s, sender, spender@, a);
+            lemma_allow_frame(s, sender, spender@, a);
+        }
+        Cw20ExecuteMsg::UpdateMarketing { .. } => { assert(raw_opt(s, akey(o, sp)) == raw_opt(t, akey(o, sp))); }
+        Cw20ExecuteMsg::UploadLogo(_) => { assert(raw_opt(s, akey(o, sp)) == raw_opt(t, akey(o, sp))); }
+        Cw20ExecuteMsg::UpdateMinter { new_minter } => { lemma_bal_write_allow(s, sender, tinfo(t)->Some_0.ser()); }
+    }
+}
+
+// --------------------------------------------------------------------- histories
+/// one call of a history: who called, in which block, with what, and whether it succeeded (a failed call is rolled back, A1)
+pub struct Call { pub sender: Seq<char>, pub block: BlockInfo, pub msg: Cw20ExecuteMsg, pub ok: bool }
+pub open spec fn step_at(st: Seq<Raw>, calls: Seq<Call>, i: int) -> bool {
+    if calls[i].ok { exec_post(st[i], st[i + 1], calls[i].sender, &calls[i].block, calls[i].msg) } else { st[i + 1] == st[i] }
+}
+/// a history: any finite sequence of calls from an `inv` state (instantiate establishes `inv`), each step satisfying the dispatcher's contract
+pub open spec fn history(st: Seq<Raw>, calls: Seq<Call>) -> bool {
+    st.len() == calls.len() + 1 && inv(st[0]) && forall|i: int| 0 <= i < calls.len() ==> #[trigger] step_at(st, calls, i)
+}
+pub open spec fn granted(calls: Seq<Call>, o: Seq<char>, sp: Seq<char>, n: int) -> nat decreases n {
+    if n <= 0 { 0 } else { granted(calls, o, sp, n - 1) + (if calls[n - 1].ok { grant_of(calls[n - 1].sender, calls[n - 1].msg, o, sp) } else { 0 }) }
+}
+pub open spec fn drawn(calls: Seq<Call>, o: Seq<char>, sp: Seq<char>, n: int) -> nat decreases n {
+    if n <= 0 { 0 } else { drawn(calls, o, sp, n - 1) + (if calls[n - 1].ok { draw_of(calls[n - 1].sender, calls[n - 1].msg, o, sp) } else { 0 }) }
+}
+
+// serves: C01 C02 C13 C19
+/// the invariant (supply == sum of balances, supply <= cap, allowance tables mirror) holds at every point of every history
+pub proof fn lemma_history_inv(st: Seq<Raw>, calls: Seq<Call>, i: int)
+    requires history(st, calls), 0 <= i <= calls.len()
+    ensures inv(st[i])
+    decreases i
+{
+    if i > 0 { lemma_history_inv(st, calls, i - 1); assert(step_at(st, calls, i - 1)); }
+}
+
+// serves: C02
+/// over any history a spender never draws more of an owner's tokens than the owner cumulatively granted (plus the initial allowance)
+pub proof fn lemma_c02_budget(st: Seq<Raw>, calls: Seq<Call>, o: Seq<char>, sp: Seq<char>, n: int)
+    requires history(st, calls), 0 <= n <= calls.len()
+    ensures drawn(calls, o, sp, n) + allowance_amt(st[n], o, sp) <= granted(calls, o, sp, n) + allowance_amt(st[0], o, sp)
+    decreases n
+{
+    if n > 0 {
+        lemma_c02_budget(st, calls, o, sp, n - 1);
+        lemma_history_inv(st, calls, n - 1);
+        assert(step_at(st, calls, n - 1));
+        if calls[n - 1].ok {
+            lemma_c02_allowance_step(st[n - 1], st[n], calls[n - 1].sender, &calls[n - 1].block, calls[n - 1].msg, o, sp);
+        }
+    }
+}
+
+// --------------------------------------------------------------------- C13: minter and cap over histories
+pub open spec fn minter_of(s: Raw) -> Option<Seq<char>> {
+    match tinfo(s) { Some(ti) => match ti.mint { Some(m) => Some(m.minter@), None => None }, None => None }
+}
+pub open spec fn cap_in(s: Raw) -> Option<Uint128> { match tinfo(s) { Some(ti) => cap_of(ti), None => None } }
+
+// serves: C13
+pub proof fn lemma_c13_step(s: Raw, t: Raw, sender: Seq<char>, b: &BlockInfo, msg: Cw20ExecuteMsg)
+    requires inv(s), exec_post(s, t, sender, b, msg)
+    ensures
+        supply(t) > supply(s) ==> msg is Mint && minter_of(s) == Some(sender),
+        minter_of(t) != minter_of(s) ==> msg is UpdateMinter && minter_of(s) == Some(sender),
+        minter_of(s) is None ==> minter_of(t) is None,
+        minter_of(t) is Some ==> cap_in(t) == cap_in(s),
+        cap_in(t) is Some ==> supply(t) <= cap_in(t)->Some_0@,
+{
+    broadcast use cw20_axioms;
+    lemma_ns();
+    lemma_c01_step(s, t, sender, b, msg);
+    match msg {
+        Cw20ExecuteMsg::Transfer { recipient, amount } => { lemma_debit(s, sender, amount@); lemma_credit(debit(s, sender, amount@), recipient@, amount@); }
+        Cw20ExecuteMsg::Send { contract, amount, msg } => { lemma_debit(s, sender, amount@); lemma_credit(debit(s, sender, amount@), contract@, amount@); }
+        Cw20ExecuteMsg::Burn { amount } => { lemma_debit(s, sender, amount@); lemma_set_supply(debit(s, sender, amount@), (supply(s) - amount@) as nat); }
+        Cw20ExecuteMsg::Mint { recipient, amount } => { lemma_set_supply(s, supply(s) + amount@); lemma_credit(set_supply(s, supply(s) + amount@), recipient@, amount@); }
+        Cw20ExecuteMsg::TransferFrom { owner, recipient, amount } => {
+            let m = after_deduct(s, owner@, sender, amount@); lemma_after_deduct(s, owner@, sender, amount@);
+            lemma_debit(m, owner@, amount@); lemma_credit(debit(m, owner@, amount@), recipient@, amount@);
+        }
+        Cw20ExecuteMsg::SendFrom { owner, contract, amount, msg } => {
+            let m = after_deduct(s, owner@, sender, amount@); lemma_after_deduct(s, owner@, sender, amount@);
+            lemma_debit(m, owner@, amount@); lemma_credit(debit(m, owner@, amount@), contract@, amount@);
+        }
+        Cw20ExecuteMsg::BurnFrom { owner, amount } => {
+            let m = after_deduct(s, owner@, sender, amount@); lemma_after_deduct(s, owner@, sender, amount@);
+            lemma_debit(m, owner@, amount@); lemma_set_supply(debit(m, owner@, amount@), (supply(m) - amount@) as nat);
+        }
+        Cw20ExecuteMsg::IncreaseAllowance { spender, amount, expires } => { lemma_set_allow(s, sender, spender@, allow_or_default(t, sender, spender@)); }
+        Cw20ExecuteMsg::DecreaseAllowance { spender, amount, expires } => { lemma_set_allow(s, sender, spender@, allow_or_default(t, sender, spender@)); }
+        Cw20ExecuteMsg::UpdateMarketing { .. } => { assert(raw_opt(s, ti_key()) == raw_opt(t, ti_key())); }
+        Cw20ExecuteMsg::UploadLogo(_) => { assert(raw_opt(s, ti_key()) == raw_opt(t, ti_key())); }
+        Cw20ExecuteMsg::UpdateMinter { new_minter } => {}
+    }
+}
+
+// serves: C13
+/// once renounced the minter role never returns; while a minter exists the cap is the one fixed at instantiation; the supply never exceeds it
+pub proof fn lemma_c13_history(st: Seq<Raw>, calls: Seq<Call>, i: int, j: int)
+    requires history(st, calls), 0 <= i <= j <= calls.len()
+    ensures
+        minter_of(st[i]) is None ==> minter_of(st[j]) is None,
+        minter_of(st[j]) is Some ==> cap_in(st[j]) == cap_in(st[i]),
+        cap_in(st[j]) is Some ==> supply(st[j]) <= cap_in(st[j])->Some_0@,
+    decreases j - i
+{
+    lemma_history_inv(st, calls, j);
+    if i < j {
+        lemma_c13_history(st, calls, i, j - 1);
+        lemma_history_inv(st, calls, j - 1);
+        assert(step_at(st, calls, j - 1));
+        if calls[j - 1].ok {
+            lemma_c13_step(st[j - 1], st[j], calls[j - 1].sender, &calls[j - 1].block, calls[j - 1].msg);
+        }
+    }
+}
